@@ -661,5 +661,5 @@ func gen(t *rapid.T) Case {
 }
 
 func TestEntities(t *testing.T) {
-	vfrun.Run(t, vfrun.Prop[Case]{Property: "C20", Name: "TestEntities", Gen: gen, Check: check}, vfrun.N(1500, 60000))
+	vfrun.Run(t, vfrun.Prop[Case]{Property: "C20", Name: "TestEntities", Gen: gen, Check: check}, vfrun.N(1500, 300000))
 }
